@@ -132,6 +132,7 @@ GAPS_FULL = [
     " # é✓§\n", "\n# c§\n# e§\n",
     " /* c§ */ # e§\n",  # a block comment and a line comment in the same gap
     "# c§\n", "/* c§ */\n",  # comment glued to the previous token / first thing in the file
+    " # c§\n\n",  # an end-of-line comment followed by a blank line
 ]
 # representative subset: one per layout class
 GAPS_REP = [" ", "", "  ", "\n", "\n\n\n", " # c§\n", "\n# c§\n", "\n/* c§ */\n", " /* c§ */ ", "\n/* m§\n   n */\n", "# c§\n"]
@@ -157,6 +158,7 @@ SIMPLER = {
     " /* m§\n   n */ ": [" /* c§ */ "],
     " /** d§ */ ": [" /* c§ */ "],
     " /* c§ */ # e§\n": [" # c§\n", " /* c§ */\n"],
+    " # c§\n\n": [" # c§\n", "\n\n"],
     "# c§\n": [" # c§\n"],
     "/* c§ */\n": [" /* c§ */\n"],
 }
